@@ -41,6 +41,8 @@ import re
 import subprocess
 import sys
 import tempfile
+import threading
+import time
 from typing import Any, Callable, Dict, List, Optional, Tuple
 
 _FLAG_NAMES = ["O_WRONLY", "O_RDWR", "O_CREAT", "O_EXCL", "O_TRUNC", "O_APPEND", "O_DIRECTORY", "O_TMPFILE"]
@@ -63,6 +65,87 @@ def _flag_list(flags: int) -> List[str]:
 
 
 # ------------------------------------------------------------------------------------------------
+# in-process concurrency: several writer threads of ONE process, scheduled at the directory-fsync / rename boundaries
+# ------------------------------------------------------------------------------------------------
+class ThreadSched:
+    """Deterministic scheduling of writer threads at the os.fsync(directory) / os.replace boundaries.
+
+    A schedule is a list of HOLDS [thread index, k]: the k-th directory fsync of that thread is slow -- after the kernel
+    call was made and before it returns to the library, the thread is parked until ANOTHER thread has renamed a file
+    into the same directory (then a short grace period, so that the other thread reaches whatever it does next), or all
+    other threads have finished, or `timeout` seconds have passed (the other threads are blocked behind a lock this
+    thread holds: the interleaving does not exist).  With `gate`, the threads other than the first hold's thread start
+    only when that hold is reached.  Nothing here judges anything: the interleaved trace is what the oracle reads."""
+
+    def __init__(self, nthreads: int, holds: List[List[int]], timeout: float = 2.0, grace: float = 0.05, gate: bool = True):
+        self.n = nthreads
+        self.holds = {(int(t), int(k)) for t, k in holds}
+        self.first = (int(holds[0][0]) if holds else None)
+        self.timeout, self.grace, self.gate = timeout, grace, gate
+        self.cv = threading.Condition()
+        self.ids: Dict[int, int] = {}
+        self.dirsyncs: Dict[int, int] = {}
+        self.renames: List[Tuple[int, str]] = []
+        self.done: set = set()
+        self.first_hold = threading.Event()
+        self.log: List[Dict[str, Any]] = []
+
+    def register(self, tid: int) -> None:
+        self.ids[threading.get_ident()] = tid
+
+    def tid(self) -> Optional[int]:
+        return self.ids.get(threading.get_ident())
+
+    def wait_start(self, tid: int) -> None:
+        if self.gate and self.first is not None and tid != self.first:
+            deadline = time.time() + 4 * self.timeout
+            while not self.first_hold.wait(0.05):
+                if self.first in self.done or time.time() > deadline:
+                    break
+
+    def finished(self, tid: int) -> None:
+        with self.cv:
+            self.done.add(tid)
+            self.cv.notify_all()
+
+    def on_rename(self, dirpath: str) -> None:
+        t = self.tid()
+        if t is None:
+            return
+        with self.cv:
+            self.renames.append((t, dirpath))
+            self.cv.notify_all()
+
+    def in_dir_fsync(self, dirpath: str) -> None:
+        t = self.tid()
+        if t is None:
+            return
+        k = self.dirsyncs.get(t, 0)
+        self.dirsyncs[t] = k + 1
+        if (t, k) not in self.holds:
+            return
+        hit, why = False, "timeout"
+        deadline = time.time() + self.timeout
+        with self.cv:
+            start = len(self.renames)
+            self.first_hold.set()
+            while True:
+                if any(tt != t and d == dirpath for tt, d in self.renames[start:]):
+                    hit, why = True, "rename-landed"
+                    break
+                if len(self.done | {t}) >= self.n:
+                    why = "others-finished"
+                    break
+                left = deadline - time.time()
+                if left <= 0:
+                    break
+                self.cv.wait(left)
+        if hit:
+            time.sleep(self.grace)
+        self.log.append({"thread": t, "dir_fsync": k, "dir": dirpath, "released": why})
+
+
+# ------------------------------------------------------------------------------------------------
 # in-process interception
 # ------------------------------------------------------------------------------------------------
 class InProcessTracer:
@@ -79,6 +162,10 @@ class InProcessTracer:
         # instead of being executed; every durability call is logged so that a probe run enumerates them
         self.fault = fault
         self.faultlog: List[Dict[str, Any]] = []
+        # several threads of the traced process: a call and its record are made atomic (the recorded order is the order in
+        # which the kernel received the entry-changing calls); `sched` parks threads at the scheduling boundaries
+        self.lock = threading.RLock()
+        self.sched: Optional[ThreadSched] = None
 
     def durability_call(self, call: str, module: str, path: Any, isdir: bool = False) -> Optional[str]:
         """Called BEFORE a call that a publish sequence depends on (temp creation, write, descriptor for
@@ -108,7 +195,12 @@ class InProcessTracer:
         return os.path.abspath(os.fspath(p))
 
     def emit(self, **ev: Any) -> None:
-        self.events.append(ev)
+        if self.sched is not None:
+            t = self.sched.tid()
+            if t is not None:
+                ev["tid"] = t
+        with self.lock:
+            self.events.append(ev)
 
     def mark(self, label: str) -> None:
         self.emit(op="mark", label=label)
@@ -118,7 +210,7 @@ class InProcessTracer:
         self.fds[fd] = p
         self.emit(op="open", path=p, flags=_flag_list(flags))
 
-    def on_fsync(self, fd: int) -> None:
+    def on_fsync(self, fd: int, issued_at: Optional[int] = None) -> None:
         p = self.fds.get(fd)
         if p is None:
             self.emit(op="other", call="fsync-unknown-fd", path=str(fd))
@@ -126,7 +218,15 @@ class InProcessTracer:
             w = self.writers.get(p)
             if w is not None:
                 w.flush_seen()          # what the file holds NOW is what this fsync persists
-            self.emit(op="fsync", path=p, isdir=os.path.isdir(p))
+            isdir = os.path.isdir(p)
+            with self.lock:
+                if isdir and issued_at is not None and issued_at < len(self.events):
+                    # calls of OTHER threads were recorded between the issue of this directory fsync and its return: it
+                    # persists the entries the directory had when it was ISSUED (raw index issued_at), and it has
+                    # returned only now
+                    self.emit(op="fsync", path=p, isdir=True, issued_at=issued_at)
+                else:
+                    self.emit(op="fsync", path=p, isdir=isdir)
 
     # -- patching
     def __enter__(self) -> "InProcessTracer":
@@ -171,8 +271,9 @@ class _OsProxy:
 
     def open(self, path: Any, flags: int, mode: int = 0o777, *, dir_fd: Any = None) -> int:
         self._t.durability_call("open", self._m, path, os.path.isdir(path))
-        fd = os.open(path, flags, mode) if dir_fd is None else os.open(path, flags, mode, dir_fd=dir_fd)
-        self._t.on_open(fd, path, flags)
+        with self._t.lock:       # descriptor numbers are reused across threads: number -> path must change atomically
+            fd = os.open(path, flags, mode) if dir_fd is None else os.open(path, flags, mode, dir_fd=dir_fd)
+            self._t.on_open(fd, path, flags)
         return fd
 
     def write(self, fd: int, data: Any) -> int:
@@ -209,8 +310,13 @@ class _OsProxy:
         if self._t.mutate == "dir_fsync_eio" and self._m == "data_operations" and os.path.isdir(self._t.fds.get(fd, "")):
             import errno
             raise OSError(errno.EIO, "injected: directory fsync failed")     # fault variant (the library swallows it)
+        isdir = os.path.isdir(self._t.fds.get(fd, ""))
+        with self._t.lock:
+            issued_at = len(self._t.events)
         os.fsync(fd)
-        self._t.on_fsync(fd)
+        if isdir and self._t.sched is not None:
+            self._t.sched.in_dir_fsync(self._t.fds.get(fd, ""))      # a slow directory fsync (scheduling boundary)
+        self._t.on_fsync(fd, issued_at if isdir else None)
 
     def fdatasync(self, fd: int) -> None:
         if self._skip_fsync(fd):
@@ -220,26 +326,35 @@ class _OsProxy:
         self._t.on_fsync(fd)
 
     def close(self, fd: int) -> None:
-        os.close(fd)
-        self._t.fds.pop(fd, None)
+        with self._t.lock:
+            self._t.fds.pop(fd, None)
+            os.close(fd)
 
     def replace(self, a: Any, b: Any, **kw: Any) -> None:
         self._t.durability_call("rename", self._m, b)
-        os.replace(a, b, **kw)
-        self._t.emit(op="rename", path=self._t._abs(a), path2=self._t._abs(b))
+        with self._t.lock:
+            os.replace(a, b, **kw)
+            self._t.emit(op="rename", path=self._t._abs(a), path2=self._t._abs(b))
+        if self._t.sched is not None:
+            self._t.sched.on_rename(os.path.dirname(self._t._abs(b)))
 
     def rename(self, a: Any, b: Any, **kw: Any) -> None:
         self._t.durability_call("rename", self._m, b)
-        os.rename(a, b, **kw)
-        self._t.emit(op="rename", path=self._t._abs(a), path2=self._t._abs(b))
+        with self._t.lock:
+            os.rename(a, b, **kw)
+            self._t.emit(op="rename", path=self._t._abs(a), path2=self._t._abs(b))
+        if self._t.sched is not None:
+            self._t.sched.on_rename(os.path.dirname(self._t._abs(b)))
 
     def remove(self, p: Any, **kw: Any) -> None:
-        os.remove(p, **kw)
-        self._t.emit(op="unlink", path=self._t._abs(p))
+        with self._t.lock:
+            os.remove(p, **kw)
+            self._t.emit(op="unlink", path=self._t._abs(p))
 
     def unlink(self, p: Any, **kw: Any) -> None:
-        os.unlink(p, **kw)
-        self._t.emit(op="unlink", path=self._t._abs(p))
+        with self._t.lock:
+            os.unlink(p, **kw)
+            self._t.emit(op="unlink", path=self._t._abs(p))
 
     def mkdir(self, p: Any, mode: int = 0o777, **kw: Any) -> None:
         os.mkdir(p, mode, **kw)
@@ -286,16 +401,18 @@ class _TempfileProxy:
 
     def mkstemp(self, *a: Any, **kw: Any) -> Tuple[int, str]:
         self._t.durability_call("create", self._m, os.path.join(kw.get("dir") or ".", "<temp>" + str(kw.get("suffix") or "")))
-        fd, path = tempfile.mkstemp(*a, **kw)
-        self._t.on_open(fd, path, os.O_RDWR | os.O_CREAT | os.O_EXCL)
+        with self._t.lock:
+            fd, path = tempfile.mkstemp(*a, **kw)
+            self._t.on_open(fd, path, os.O_RDWR | os.O_CREAT | os.O_EXCL)
         return fd, path
 
     def NamedTemporaryFile(self, *a: Any, **kw: Any) -> Any:
         self._t.durability_call("create", self._m, os.path.join(kw.get("dir") or ".", "<temp>" + str(kw.get("suffix") or "")))
-        f = tempfile.NamedTemporaryFile(*a, **kw)
-        if kw.get("delete", True):
-            self._t.emit(op="other", call="NamedTemporaryFile(delete=True)", path=self._t._abs(f.name))
-        self._t.on_open(f.fileno(), f.name, os.O_RDWR | os.O_CREAT | os.O_EXCL)
+        with self._t.lock:
+            f = tempfile.NamedTemporaryFile(*a, **kw)
+            if kw.get("delete", True):
+                self._t.emit(op="other", call="NamedTemporaryFile(delete=True)", path=self._t._abs(f.name))
+            self._t.on_open(f.fileno(), f.name, os.O_RDWR | os.O_CREAT | os.O_EXCL)
         return f
 
 
